@@ -262,6 +262,17 @@ def normalization_unit(p, item, tier, seed):
 
 
 # ------------------------------------------------------------------ 4
+LOOKUP_LOG = []  # every look-up this process made so far, in order (a later answer may depend on earlier ones)
+
+
+def history_src():
+    """Replay prefix: the look-ups made before, in the same order (results ignored)."""
+    if not LOOKUP_LOG:
+        return ""
+    return ("from checks import c17 as _c17\n_HISTORY=" + repr(LOOKUP_LOG[-4000:]) + "\n"
+            "for _nm, _T in _HISTORY:\n    try:\n        _c17.get_db(_nm).get_by_raw_truth_table(_T)\n    except Exception:\n        pass\n")
+
+
 def lookup_check(p, name, table, expect_found=None, as_tuples=False):
     """get_by_raw_truth_table on a fully defined table (rows given as lists, or as tuples:
     RawTruthTable is any Sequence[Sequence[bool]])."""
@@ -269,7 +280,8 @@ def lookup_check(p, name, table, expect_found=None, as_tuples=False):
     if as_tuples:
         return _lookup_tuples(p, name, table)
     p.case(("lookup", name, repr(table)), sample=f"{name} look-up {table}" if len(p.samples) < 5 else None)
-    src = (REPLAY_PRELUDE + "from checks import c17\n" + f"T={table!r}\nc=c17.get_db({name!r}).get_by_raw_truth_table([list(r) for r in T])\n")
+    src = (REPLAY_PRELUDE + history_src() + "from checks import c17\n" + f"T={table!r}\nc=c17.get_db({name!r}).get_by_raw_truth_table([list(r) for r in T])\n")
+    LOOKUP_LOG.append((name, [list(r) for r in table]))
     try:
         c = db.get_by_raw_truth_table([list(r) for r in table])
     except Exception as e:  # noqa: BLE001
@@ -312,11 +324,12 @@ def _lookup_tuples(p, name, table):
     tt = tuple(tuple(r) for r in table)
     p.case(("lookup-tuples", name, repr(tt)), sample=f"{name} look-up with tuple rows {tt}" if len(p.samples) < 7 else None)
     distinct = {tuple(r) if not r[0] else tuple(not v for v in r) for r in tt}
-    src = (REPLAY_PRELUDE + "from checks import c17\n" + f"T={tt!r}\ntry:\n    c=c17.get_db({name!r}).get_by_raw_truth_table(T)\n"
+    src = (REPLAY_PRELUDE + history_src() + "from checks import c17\n" + f"T={tt!r}\ntry:\n    c=c17.get_db({name!r}).get_by_raw_truth_table(T)\n"
            "    bad = c is None or [tuple(r) for r in c.get_truth_table()]!=[tuple(r) for r in T]\nexcept Exception as e:\n    print(type(e).__name__, e); bad=True\n"
            "print(bad); sys.exit(1 if bad else 0)\n")
     if len(distinct) > 3:
         return
+    LOOKUP_LOG.append((name, tt))
     try:
         c = db.get_by_raw_truth_table(tt)
         bad = None if (c is not None and [tuple(r) for r in c.get_truth_table()] == [tuple(r) for r in tt]) else ("nothing returned" if c is None else "wrong function")
@@ -355,32 +368,42 @@ def lookup_unit(p, item, tier, seed):
             lookup_check(p, name, table, as_tuples=True)
     elif kind == "dont-care":
         db = get_db(name)
-        for _ in range(arg):
+        EXCL = [None, ("INPUT",), ("INPUT", "NOT"), ("INPUT", "NOT", "XOR", "NXOR"), ("INPUT", "NOT", "AND", "OR", "NAND", "NOR"), ("INPUT", "NOT", "IFF", "XOR", "NXOR", "AND")]
+        for it_ in range(arg):
             n = rnd.choice([2, 3])
             m = rnd.choice([1, 2, 3])
             table = [[rnd.random() < 0.5 for _ in range(1 << n)] for _ in range(m)]
+            if it_ % 3 == 0:
+                # rows that have a completion costing nothing under a measure that ignores linear gates
+                for r_ in range(m):
+                    mask = rnd.randrange(1, 1 << n)
+                    neg = rnd.random() < 0.5
+                    table[r_] = [(bin(j & mask).count("1") % 2 == 1) != neg for j in range(1 << n)]
+            excl_names = rnd.choice(EXCL)
+            excl = None if excl_names is None else tuple(getattr(G, t) for t in excl_names)
             model = [list(r) for r in table]
             pos = [(i, j) for i in range(m) for j in range(1 << n)]
             dcs = rnd.sample(pos, rnd.randint(1, 4))
             for i, j in dcs:
                 model[i][j] = DontCare
-            p.case(("dc", name, repr(table), repr(dcs)), sample=f"{name} don't-care look-up {m}x{1 << n} with {len(dcs)} don't-cares" if len(p.samples) < 6 else None)
+            p.case(("dc", name, repr(table), repr(dcs), excl_names), sample=f"{name} don't-care look-up {m}x{1 << n} with {len(dcs)} don't-cares" if len(p.samples) < 6 else None)
             msrc = "[" + ", ".join("[" + ", ".join("DontCare" if v is DontCare else repr(v) for v in r) + "]" for r in model) + "]"
             src = (REPLAY_PRELUDE + "import itertools\nfrom checks import c17\nfrom cirbo.core.logic import DontCare\n" + f"M={msrc}\ndcs={dcs!r}\ndb=c17.get_db({name!r})\n"
-                   "c=db.get_by_raw_truth_table_model([list(r) for r in M])\nbad=[]\n"
+                   f"from cirbo.core.circuit import gate as G\nexcl={'None' if excl_names is None else '(' + ', '.join('G.' + t for t in excl_names) + ',)'}\n"
+                   "c=db.get_by_raw_truth_table_model([list(r) for r in M], exclusion_list=excl)\nbad=[]\n"
                    "best=None\n"
                    "for sub in itertools.product((False,True), repeat=len(dcs)):\n"
                    "    T=[[False if v is DontCare else v for v in r] for r in M]\n"
                    "    for (i,j),v in zip(dcs,sub): T[i][j]=v\n"
                    "    k=db.get_by_raw_truth_table(T)\n"
-                   "    if k is not None: best=k.gates_number() if best is None else min(best,k.gates_number())\n"
+                   "    if k is not None: best=k.gates_number(excl) if best is None else min(best,k.gates_number(excl))\n"
                    "if c is None:\n    if best is not None: bad.append('nothing returned although a completion is stored')\n"
                    "else:\n    tt=c.get_truth_table()\n"
                    "    if any(M[i][j] is not DontCare and tt[i][j]!=M[i][j] for i in range(len(M)) for j in range(len(M[0]))): bad.append('disagrees with a defined entry')\n"
-                   "    if best is not None and c.gates_number()>best: bad.append(('larger than a completion', c.gates_number(), best))\n"
+                   "    if best is not None and c.gates_number(excl)>best: bad.append(('larger than a completion', c.gates_number(excl), best))\n"
                    "print(bad); sys.exit(1 if bad else 0)\n")
             try:
-                c = db.get_by_raw_truth_table_model([list(r) for r in model])
+                c = db.get_by_raw_truth_table_model([list(r) for r in model], exclusion_list=excl)
             except Exception as e:  # noqa: BLE001
                 p.violation(f"lookup-dc:{name}:raises:{type(e).__name__}", f"don't-care look-up raised {type(e).__name__}: {e}", src)
                 continue
@@ -391,7 +414,7 @@ def lookup_unit(p, item, tier, seed):
                     T[i][j] = v
                 k = db.get_by_raw_truth_table(T)
                 if k is not None:
-                    best = k.gates_number() if best is None else min(best, k.gates_number())
+                    best = k.gates_number(excl) if best is None else min(best, k.gates_number(excl))
             bad = None
             if c is None:
                 if best is not None:
@@ -400,8 +423,8 @@ def lookup_unit(p, item, tier, seed):
                 tt = c.get_truth_table()
                 if len(tt) != m or any(model[i][j] is not DontCare and tt[i][j] != model[i][j] for i in range(m) for j in range(1 << n)):
                     bad = "result disagrees with a defined entry"
-                elif best is not None and c.gates_number() > best:
-                    bad = f"result has {c.gates_number()} gates, a completion is stored with {best}"
+                elif best is not None and c.gates_number(excl) > best:
+                    bad = f"result has {c.gates_number(excl)} gates (not counting {excl_names}), a completion is stored with {best}"
             if bad:
                 p.violation(f"lookup-dc:{name}:{bad.split(' ')[0]}", f"model {model}: {bad}", src)
 
